@@ -4,18 +4,21 @@
 package chainkit
 
 import (
+	"crypto/elliptic"
 	"crypto/sha256"
 	"fmt"
+	"github.com/nspcc-dev/neo-go/pkg/core/block"
+	"github.com/nspcc-dev/neo-go/pkg/smartcontract/scparser"
 	"sort"
 
 	"github.com/nspcc-dev/neo-go/pkg/config/netmode"
 	"github.com/nspcc-dev/neo-go/pkg/crypto/hash"
 	"github.com/nspcc-dev/neo-go/pkg/crypto/keys"
+	"github.com/nspcc-dev/neo-go/pkg/io"
 	"github.com/nspcc-dev/neo-go/pkg/smartcontract"
 	"github.com/nspcc-dev/neo-go/pkg/util"
 	"github.com/nspcc-dev/neo-go/pkg/vm/emit"
 	"github.com/nspcc-dev/neo-go/pkg/vm/opcode"
-	"github.com/nspcc-dev/neo-go/pkg/io"
 )
 
 // Magic is the network magic used by all harness chains.
@@ -156,3 +159,43 @@ func (a Actor) DummyInvocation() []byte {
 }
 
 var _ = opcode.RET
+
+// AltInvocation signs the item with the LAST M keys of a multisignature actor: another valid witness of the same script
+// (any M of N signatures make one; peers of a network hold different ones for the same block). ok=false when the actor
+// has no second choice (M == N, or a single key).
+func (a Actor) AltInvocation(item hash.Hashable) (inv []byte, ok bool) {
+	if a.M == 0 || a.M >= len(a.Keys) {
+		return nil, false
+	}
+	w := io.NewBufBinWriter()
+	for i := len(a.Keys) - a.M; i < len(a.Keys); i++ {
+		emit.Bytes(w.BinWriter, a.Keys[i].Priv.SignHashable(uint32(Magic), item))
+	}
+	return w.Bytes(), true
+}
+
+// AltBlockWitness gives the block another valid witness (see AltInvocation); false when there is none.
+func AltBlockWitness(b *block.Block) bool {
+	m, pubsB, ok := scparser.ParseMultiSigContract(b.Script.VerificationScript)
+	if !ok {
+		return false
+	}
+	pubs := make([]*keys.PublicKey, len(pubsB))
+	for i, pb := range pubsB {
+		p, err := keys.NewPublicKeyFromBytes(pb, elliptic.P256())
+		if err != nil {
+			return false
+		}
+		pubs[i] = p
+	}
+	act, err := MultisigOfPubs(m, pubs)
+	if err != nil {
+		return false
+	}
+	inv, ok := act.AltInvocation(b)
+	if !ok {
+		return false
+	}
+	b.Script.InvocationScript = inv
+	return true
+}
